@@ -11,6 +11,7 @@ for j in range(i, len(t)):
 open(sys.argv[2], 'w').write(t[a:j + 1] + r"""
 fn main(){
     let union: u8 = ProvisionFlags::all().bits();
+    assert_eq!(ProvisionFlags::empty().bits(), 0);
     let mut n=0u32;
     for a in 0u16..256 { for b in 0u16..256 {
         let (a,b)=(a as u8,b as u8);
@@ -24,6 +25,26 @@ fn main(){
         let mut z=fa.clone(); z &= !fb.clone(); assert_eq!(z.bits(), a & (!b & union));
         assert_eq!(fa.clone().bits(), a);                                    // clone
         assert_eq!(fa.is_empty(), a==0);
+        assert_eq!(fa.is_all(), a & union == union);                          // is_all
+        let mut i=fa.clone(); i.insert(fb.clone()); assert_eq!(i.bits(), a | b);          // insert
+        let mut r=fa.clone(); r.remove(fb.clone()); assert_eq!(r.bits(), a & !b);         // remove (other NOT truncated)
+        let mut t=fa.clone(); t.toggle(fb.clone()); assert_eq!(t.bits(), a ^ b);          // toggle
+        let mut s1=fa.clone(); s1.set(fb.clone(), true); assert_eq!(s1.bits(), a | b);    // set(true)
+        let mut s0=fa.clone(); s0.set(fb.clone(), false); assert_eq!(s0.bits(), a & !b);  // set(false)
+        assert_eq!(fa.clone().union(fb.clone()).bits(), a | b);
+        assert_eq!(fa.clone().intersection(fb.clone()).bits(), a & b);
+        assert_eq!(fa.clone().difference(fb.clone()).bits(), a & !b);
+        assert_eq!(fa.clone().symmetric_difference(fb.clone()).bits(), a ^ b);
+        assert_eq!(fb.clone().complement().bits(), !b & union);
+        assert_eq!((fa.clone() | fb.clone()).bits(), a | b);                  // operators
+        assert_eq!((fa.clone() & fb.clone()).bits(), a & b);
+        assert_eq!((fa.clone() ^ fb.clone()).bits(), a ^ b);
+        assert_eq!((fa.clone() - fb.clone()).bits(), a & !b);
+        let mut x2=fa.clone(); x2 ^= fb.clone(); assert_eq!(x2.bits(), a ^ b);
+        let mut x3=fa.clone(); x3 -= fb.clone(); assert_eq!(x3.bits(), a & !b);
+        assert_eq!(ProvisionFlags::from_bits_truncate(b).bits(), b & union);
+        assert_eq!(ProvisionFlags::from_bits_retain(b).bits(), b);
+        assert_eq!(ProvisionFlags::from_bits(b).map(|f| f.bits()), if b & !union == 0 { Some(b) } else { None });
         n+=1;
     }}
     let _=format!("{:?}", ProvisionFlags::from_bits_retain(0xff));           // Debug does not panic
